@@ -404,12 +404,16 @@ class ComponentLevel3( ComponentLevel2 ):
 
     for blk, writes in s._dsl.all_upblk_writes.items():
       for obj in writes:
-        writer_prop[ obj ] = True # propagatable
-
         obj = obj.get_parent_object()
         while obj.is_signal():
           writer_prop[ obj ] = False
           obj = obj.get_parent_object()
+
+    # A signal that is written itself stays propagatable even if one of its
+    # fields or slices is written too (in the same update block)
+    for blk, writes in s._dsl.all_upblk_writes.items():
+      for obj in writes:
+        writer_prop[ obj ] = True # propagatable
 
     # Find the host object of every net signal
     # and then leverage the information to find out top level input port
@@ -475,7 +479,9 @@ class ComponentLevel3( ComponentLevel2 ):
               for obj in v.get_sibling_slices():
                 if obj.slice_overlap( v ):
                   if obj in writer_prop and writer_prop[ obj ]:
-                    assert not has_writer
+                    # v may already be the writer because of an ancestor
+                    # that the same update block writes as well
+                    assert not has_writer or writer is v
                     has_writer, writer = True, v
                     # Shunning: is breaking out of here enough? If we
                     # don't break the loop, we might a list here storing
